@@ -176,19 +176,54 @@ class TlcResult:
 _meta_counter = [0]
 
 
+class _Slot:
+    """Machine-wide limit on concurrently running single-worker TLC processes
+    (many checks may run at once): one of NCPU lock files must be held."""
+
+    def __enter__(self):
+        d = os.path.join(CACHE, "slots")
+        os.makedirs(d, exist_ok=True)
+        self.f = None
+        n = max(4, NCPU)
+        while self.f is None:
+            for k in range(n):
+                f = open(os.path.join(d, "slot-%d" % k), "w")
+                try:
+                    fcntl.flock(f, fcntl.LOCK_EX | fcntl.LOCK_NB)
+                    self.f = f
+                    break
+                except OSError:
+                    f.close()
+            if self.f is None:
+                time.sleep(0.2)
+        return self
+
+    def __exit__(self, *a):
+        fcntl.flock(self.f, fcntl.LOCK_UN)
+        self.f.close()
+
+
 def tlc(spec_dir, module, cfg, workers=None, env=None, timeout=1800, extra=(), heap="8g", coverage=False):
     _meta_counter[0] += 1
     meta = os.path.join(CACHE, "tlcmeta", "%d-%d-%d" % (os.getpid(), _meta_counter[0], int(time.time() * 1000) % 100000))
     os.makedirs(meta, exist_ok=True)
     libs = os.path.join(VERIF, "spec", "common")
-    cmd = ["java", "-XX:+UseParallelGC", "-Xmx" + heap, "-DTLA-Library=" + libs, "-cp", JAR, "tlc2.TLC",
-           "-metadir", meta, "-workers", str(workers or NCPU), "-config", cfg]
+    nw = workers or NCPU
+    gc = ["-XX:+UseSerialGC"] if nw == 1 else ["-XX:+UseParallelGC", "-XX:ParallelGCThreads=%d" % max(2, min(8, nw))]
+    cmd = ["java"] + gc + ["-XX:TieredStopAtLevel=1" if nw == 1 else "-XX:+TieredCompilation", "-Xmx" + heap,
+           "-DTLA-Library=" + libs, "-cp", JAR, "tlc2.TLC",
+           "-metadir", meta, "-workers", str(nw), "-config", cfg]
     if coverage:
         cmd += ["-coverage", "1"]
     cmd += list(extra) + [module + ".tla"]
     t0 = time.time()
     try:
-        rc, out = run(cmd, timeout=timeout, env=env, cwd=spec_dir)
+        if nw == 1:
+            with _Slot():
+                t0 = time.time()
+                rc, out = run(cmd, timeout=timeout, env=env, cwd=spec_dir)
+        else:
+            rc, out = run(cmd, timeout=timeout, env=env, cwd=spec_dir)
     except subprocess.TimeoutExpired:
         shutil.rmtree(meta, ignore_errors=True)
         raise MachineryError("TLC timed out after %ds on %s/%s" % (timeout, module, cfg))
